@@ -275,16 +275,47 @@ func contextRefName(contextOfCall protoreflect.Descriptor, refElement protorefle
 	}
 
 	refPath := pathToPackage(refElement)
-	contextPath := pathToPackage(contextOfCall)
 
-	for i := 0; i < len(contextPath); i++ {
-		if len(refPath) == 0 || refPath[0] != contextPath[i] {
-			break
+	// Proto resolves a relative name from the innermost scope outwards, the
+	// first scope holding an element named like the first part wins. Use the
+	// shortest suffix of the path which still resolves to the right element:
+	// never an empty name (a message referring to itself) and never a name
+	// which is shadowed by a nested type of the surrounding messages.
+	for start := len(refPath) - 1; start >= 0; start-- {
+		if resolvesFromContext(contextOfCall, refPath, start) {
+			return strings.Join(refPath[start:], "."), nil
 		}
-		refPath = refPath[1:]
 	}
 
-	return strings.Join(refPath, "."), nil
+	return "." + string(refElement.FullName()), nil
+}
+
+// resolvesFromContext checks if refPath[start:], looked up from the context,
+// finds the element at refPath.
+func resolvesFromContext(contextOfCall protoreflect.Descriptor, refPath []string, start int) bool {
+	first := protoreflect.Name(refPath[start])
+	wantScope := refPath[:start]
+	for scope := contextOfCall; scope != nil; scope = scope.Parent() {
+		switch st := scope.(type) {
+		case protoreflect.MessageDescriptor:
+			if st.Messages().ByName(first) != nil || st.Enums().ByName(first) != nil {
+				gotScope := pathToPackage(st)
+				if len(gotScope) != len(wantScope) {
+					return false
+				}
+				for idx := range gotScope {
+					if gotScope[idx] != wantScope[idx] {
+						return false
+					}
+				}
+				return true
+			}
+		case protoreflect.FileDescriptor:
+			// the package scope, where only the full path is found
+			return start == 0
+		}
+	}
+	return start == 0
 }
 
 func pathToPackage(refElement protoreflect.Descriptor) []string {
